@@ -94,18 +94,27 @@ impl Dec<'_> {
     }
 }
 
-fn decode(digits: &[u8]) -> Prog {
+// `wrapped`: `x` is declared globally and the decoded statements run inside
+// a function (so most reads succeed and declarations shadow); otherwise `x`
+// starts undeclared at the top level.
+fn decode(digits: &[u8], wrapped: bool) -> Prog {
     let mut d = Dec{digits, pos: 0, k: 0, fns: 0};
-    // `f` starts as a function that reads `x` (so calls before any
-    // definition are meaningful), `x` starts undeclared.
-    let mut stmts = vec![declare(var("f"), func(vec![], false, vec![sdmodel::ast::print(string("f0"))]))];
+    let mut body = vec![];
     while d.pos < digits.len() {
         if let Some(s) = d.stmt(2) {
-            stmts.extend(s);
+            body.extend(s);
         }
     }
-    stmts.push(sdmodel::ast::print(string("end")));
-    Prog::new(stmts)
+    body.push(sdmodel::ast::print(string("end")));
+    let f0 = declare(var("f"), func(vec![], false, vec![sdmodel::ast::print(string("f0"))]));
+    if wrapped {
+        body.push(sdmodel::ast::print(var("x")));
+        Prog::new(vec![declare(var("x"), int(5)), f0, fn_decl("main", vec![], false, body), expr_stmt(call(var("main"), vec![])), sdmodel::ast::print(var("x"))])
+    } else {
+        let mut stmts = vec![f0];
+        stmts.extend(body);
+        Prog::new(stmts)
+    }
 }
 
 fn enumerate(ctx: &Ctx, len: usize, sample_every: u64) {
@@ -124,15 +133,16 @@ fn enumerate(ctx: &Ctx, len: usize, sample_every: u64) {
             digits.push((c % BASE as u64) as u8);
             c /= BASE as u64;
         }
-        let prog = decode(&digits);
+        for wrapped in [false, true] {
+        let prog = decode(&digits, wrapped);
         let printed = print::print_canonical(&prog);
         if !seen.lock().unwrap().insert(fnv(printed.src.as_bytes())) {
-            return;
+            continue;
         }
         let rr = interp::run(&prog);
         let expect = match ref_expect(&printed, &rr, DiagLevel::None) {
             Some(e) => e,
-            None => { ctx.exclude("reference discards"); return; },
+            None => { ctx.exclude("reference discards"); continue; },
         };
         let nd = count_variants(ctx, &prog, &rr, &SCOPE_VARIANTS);
         label_outcome(ctx, &rr);
@@ -141,6 +151,7 @@ fn enumerate(ctx: &Ctx, len: usize, sample_every: u64) {
         // and a stratified part directly through the binary.
         let via = if code % 16 == 0 { Via::Cli } else { Via::Fast };
         ctx.judge(&case, nd > 0, via, None);
+        }
     });
 }
 
